@@ -220,7 +220,24 @@ func TestVerifC05Interest(t *testing.T) {
 				if smallQ && c.Chance(0.08) {
 					opk = 17
 				}
+				if smallQ && c.Chance(0.08) {
+					opk = 18
+				}
 				switch opk {
+				case 18:
+					// interest that lasts no time at all: subscribe and cancel back to back (both announcements are handed to
+					// queues that are still busy with earlier ones; they must come out in that order)
+					h, err := handle(x, t)
+					if err != nil || x.fanout[t] {
+						break
+					}
+					if s, err := h.Subscribe(); err == nil {
+						x.everInt[t] = true
+						s.Cancel()
+						x.dead = append(x.dead, s)
+						note("%s.subscribe_cancel(%s)", x.nd.name, t)
+						c.Count("subscribe_cancel_back_to_back", 1)
+					}
 				case 17:
 					// A topic with announced subscriptions is given up and joined again fanout-only within the same instant, while the
 					// announcements queue up behind a full outbound queue: the withdrawal may be dropped and has to be retried although
